@@ -20,3 +20,8 @@ PROP = dict(
 # they never produce a VIOLATION of C32.
 import extstages  # noqa: E402
 PROP["stages"] += extstages.pick("CX2", ["GenSet", "Fanout", "Fanout-ideal", "FanoutConc", "FanoutConc-ceil", "TraceFanoutConc-race"], advisory=True, tiers=("thorough",))
+# coverage extension CX5 (lib/ext/CX5.py, spec/ind/): UNBOUNDED safety of TTL.tla - an inductive invariant for a typed companion module, discharged
+# by TLAPS (arbitrary constants) and Apalache (symbolic integers), with a TLC check on the bounded models that the companion's transition relation
+# and properties are this module's. A proof obligation that fails or times out is a weak invariant or a tool limit, never an observation of the
+# code: the stages are advisory (logged, kept in the evidence, never decide).
+PROP["stages"] += extstages.pick("CX5", ["TTL-ref", "TTL-tlaps", "TTL-apalache"], advisory=True, tiers=("thorough",))
